@@ -474,6 +474,7 @@ func (m *Manager) TerminateSession(ctx context.Context, sessionID string, reason
 	session.UpdatedAt = time.Now()
 	m.mu.Unlock()
 
+	verifPoint("subscriber.terminate.between-check-and-remove")
 	// Release IP addresses
 	if session.IPv4 != nil && m.allocator != nil {
 		if err := m.allocator.ReleaseIPv4(ctx, session.IPv4); err != nil {
